@@ -25,6 +25,88 @@ Proof.
     destruct (Lexes_word_inv _ _ _ _ HL) as (s1 & E & _). exists s1. exact E.
 Qed.
 
+(* ---------------------------------------------------------------- startxref *)
+(** no occurrence of a pattern in a text that does not contain the pattern's first byte *)
+Lemma rfind_sub_no_first c pr l : Forall (fun b => b <> c) l -> rfind_sub (c :: pr) l = None.
+Proof.
+  induction 1 as [|b l Hb Hl IH]; [reflexivity|].
+  cbn [rfind_sub]. rewrite IH. cbn [starts_with]. destruct (N.eqb_spec c b) as [->|]; [contradiction|reflexivity].
+Qed.
+
+Lemma starts_with_self pat t : starts_with pat (pat ++ t) = true.
+Proof. apply starts_with_app. exists t. reflexivity. Qed.
+
+(** the last occurrence of [c :: pr] in  a ++ (c :: pr) ++ t  is at |a| when [c] occurs neither in [pr] nor in [t] *)
+Lemma rfind_sub_last c pr a t :
+  Forall (fun b => b <> c) pr -> Forall (fun b => b <> c) t ->
+  rfind_sub (c :: pr) (a ++ (c :: pr) ++ t) = Some (lenN a).
+Proof.
+  intros Hpr Ht.
+  assert (H0 : rfind_sub (c :: pr) ((c :: pr) ++ t) = Some 0).
+  { cbn [app rfind_sub]. rewrite (rfind_sub_no_first c pr (pr ++ t)) by (apply Forall_app; split; assumption).
+    change (c :: pr ++ t) with ((c :: pr) ++ t). rewrite starts_with_self. reflexivity. }
+  rewrite (rfind_sub_app _ a _ _ H0). f_equal. lia.
+Qed.
+
+Lemma firstn_app_exact {A} (a b : list A) n : n = length a -> firstn n (a ++ b) = a.
+Proof. intros ->. rewrite firstn_app, Nat.sub_diag, firstn_all. cbn. apply app_nil_r. Qed.
+
+Lemma kw_startxref_shape : exists pr, xr_startxref_kw = 115 :: pr /\ Forall (fun b => b <> 115) pr.
+Proof. eexists. split; [reflexivity|]. repeat constructor; discriminate. Qed.
+
+(** the end of a file as §7.5.5 writes it: `startxref`, the offset in decimal, then a tail (`%%EOF`) —
+    nothing after the keyword contains the letter `s` *)
+Definition startxref_at (file : bytes) (q : N) : Prop :=
+  exists body sp tail,
+    file = body ++ xr_startxref_kw ++ sp ++ dec_of_N q ++ tail /\
+    sep sp /\ boundary tail /\ q < 2 ^ 64 /\
+    Forall (fun b => b <> 115) sp /\ Forall (fun b => b <> 115) tail.
+
+Lemma removelast_forall {A} (P : A -> Prop) l : Forall P l -> Forall P (removelast l).
+Proof.
+  induction 1 as [|x l Hx Hl IH]; [constructor|]. cbn [removelast]. destruct l; [constructor|]. constructor; assumption.
+Qed.
+
+Lemma firstn_removelast {A} (l : list A) : firstn (length l - 1) l = removelast l.
+Proof.
+  induction l as [|x l IH]; [reflexivity|]. cbn [length removelast]. destruct l as [|y l]; [reflexivity|].
+  replace (S (length (y :: l)) - 1)%nat with (S (length (y :: l) - 1)) by (cbn [length]; lia).
+  cbn [firstn]. f_equal. exact IH.
+Qed.
+
+Lemma digits_not_s l : forallb isdig l = true -> Forall (fun b => b <> 115) l.
+Proof.
+  induction l as [|c l IH]; cbn [forallb]; intros H; [constructor|].
+  apply andb_true_iff in H. destruct H as [Hc Hl]. constructor; [|apply IH; exact Hl].
+  intros ->. discriminate.
+Qed.
+
+Theorem locate_xref_startxref : forall file q, startxref_at file q -> locate_xref_offset file = Ok q.
+Proof.
+  intros file q (body & sp & tail & -> & Hsp & Hb & Hq & Nsp & Ntail).
+  destruct kw_startxref_shape as (pr & Ekw & Hpr).
+  destruct (dec_of_N_spec q) as (Hd & Hne & Hv).
+  set (rest := sp ++ dec_of_N q ++ tail).
+  assert (Hrest : rest <> []).
+  { unfold rest. destruct sp; [|discriminate]. destruct (dec_of_N q); [contradiction|discriminate]. }
+  assert (Nrest : Forall (fun b => b <> 115) rest).
+  { unfold rest. apply Forall_app. split; [exact Nsp|]. apply Forall_app. split; [apply digits_not_s; exact Hd|exact Ntail]. }
+  unfold locate_xref_offset. change xr_from_end with 0.
+  replace (body ++ xr_startxref_kw ++ sp ++ dec_of_N q ++ tail) with (body ++ xr_startxref_kw ++ rest) by reflexivity.
+  assert (Htake : take (lenN (body ++ xr_startxref_kw ++ rest) - 0 - 1) (body ++ xr_startxref_kw ++ rest)
+                  = body ++ xr_startxref_kw ++ removelast rest).
+  { unfold take, lenN.
+    replace (N.to_nat (N.of_nat (length (body ++ xr_startxref_kw ++ rest)) - 0 - 1)) with (length (body ++ xr_startxref_kw ++ rest) - 1)%nat by lia.
+    rewrite firstn_removelast. rewrite app_assoc, removelast_app by exact Hrest. rewrite <- app_assoc. reflexivity. }
+  rewrite Htake, Ekw. rewrite (rfind_sub_last 115 pr body (removelast rest) Hpr (removelast_forall _ _ Nrest)).
+  rewrite <- Ekw. cbv zeta.
+  assert (Hdrop : drop (lenN body + lenN xr_startxref_kw) (body ++ xr_startxref_kw ++ rest) = rest).
+  { rewrite app_assoc. rewrite <- lenN_app. apply drop_app_exact. }
+  rewrite Hdrop. unfold rest.
+  rewrite (next_tok sp (dec_of_N q) tail _ Hsp Hne (digits_reg _ Hd) Hb). cbn [bind].
+  apply parse_uint_dec. exact Hq.
+Qed.
+
 (** what may follow the trailer dictionary: the parser looks one token ahead for `stream` (and, after an
     integer, for `R`); at the end of the text, before white-space only, or before a word that is neither an
     integer nor `stream` (in a file: `startxref`) nothing is found *)
@@ -267,5 +349,23 @@ Section AtProofs.
       rewrite Hread in Hread'. inversion Hread'; subst t'.
       apply resolve_stored; [exact Hget|exact Hfl| |apply Hnc].
       intros g pos Hl. replace (0 + pos) with pos by lia. apply (Hobj n g pos Hl).
+  Qed.
+
+  (** … with the value of `startxref` derived from the end of the file instead of assumed *)
+  Corollary resolve_latest_tables_file : forall allow member file (h : history) secss q0 secs0 d0 older size,
+    Forall2 represents secss h -> wf_history h ->
+    map snd ((q0, secs0) :: older) = rev secss ->
+    starts_with xr_header file = true -> startxref_at file q0 ->
+    section_at file q0 secs0 d0 -> t_size (tinfo_of tid d0) = Some size -> size <= xr_max_id ->
+    chain_at file 0 (t_prev (tinfo_of tid d0)) older -> NoDup (map fst older) ->
+    lenN file < usize_max ->
+    (forall n g pos, latest h n = Some (Direct g pos) -> exists v, object_at file pos n g v) ->
+    (forall n s i, latest h n <> Some (Compressed s i)) ->
+    exists t, load (xref_at_tables R tid) file = Ok (0, t, tid d0) /\
+      forall n fuel, n < size ->
+        stored file 0 n (latest h n) (resolve_ref prim (obj_at_parse R allow F_ANY) member (S fuel) file 0 t n).
+  Proof.
+    intros allow member file h secss q0 secs0 d0 older size Hr Hwf Hmap Hhdr Hsx.
+    apply (resolve_latest_tables allow member file h secss q0 secs0 d0 older size Hr Hwf Hmap Hhdr (locate_xref_startxref _ _ Hsx)).
   Qed.
 End AtProofs.
